@@ -242,20 +242,25 @@ Definition convert_raw (dbg : bool) (c : lcfg) (x : lctx) (base : N) (e : lent)
 (* iterator state: remaining input of the raw iterator + running base address *)
 Record lstate : Type := { s_inp : list byte; s_base : N }.
 
-(* RngListIter::next — the `loop` consumes input on every turn; fuel = |input| + 1 always suffices
-   (Proofs: rng_next_fuel). A convert_raw error is returned WITHOUT emptying the raw input. *)
-Fixpoint rng_next (fuel : nat) (dbg : bool) (c : lcfg) (bare : bool) (x : lctx) (s : lstate)
-  : res (option (N * N)) * lstate :=
+(* RngListIter::next and LocListIter::next are the same loop around their own raw iterator and their own
+   convert_raw; `list_next` is that loop, generic in the raw parser, in the projection of a raw entry to its
+   address part, and in the constructor of the yielded item (Range / LocationListEntry{range, data}).
+   The `loop` consumes input on every turn; fuel = |input| + 1 always suffices (Proofs: list_next_fuel).
+   A convert_raw error is returned WITHOUT emptying the raw input (only raw.next() errors empty it). *)
+Fixpoint list_next {A B : Type} (parse : list byte -> res (option A * list byte))
+         (ent : A -> lent) (mk : N * N -> A -> B)
+         (fuel : nat) (dbg : bool) (c : lcfg) (x : lctx) (s : lstate)
+  : res (option B) * lstate :=
   match fuel with
   | O => (OutOfFuel, s)
   | S f =>
-      let (r, inp') := rng_raw_next dbg c bare (s_inp s) in
+      let (r, inp') := raw_next parse (s_inp s) in
       match r with
       | Ok None => (Ok None, {| s_inp := inp'; s_base := s_base s |})
-      | Ok (Some e) =>
-          match convert_raw dbg c x (s_base s) e with
-          | Ok (Some rg, base') => (Ok (Some rg), {| s_inp := inp'; s_base := base' |})
-          | Ok (None, base') => rng_next f dbg c bare x {| s_inp := inp'; s_base := base' |}
+      | Ok (Some a) =>
+          match convert_raw dbg c x (s_base s) (ent a) with
+          | Ok (Some rg, base') => (Ok (Some (mk rg a)), {| s_inp := inp'; s_base := base' |})
+          | Ok (None, base') => list_next parse ent mk f dbg c x {| s_inp := inp'; s_base := base' |}
           | Err er => (Err er, {| s_inp := inp'; s_base := s_base s |})
           | Panic => (Panic, {| s_inp := inp'; s_base := s_base s |})
           | OutOfFuel => (OutOfFuel, s)
@@ -266,28 +271,15 @@ Fixpoint rng_next (fuel : nat) (dbg : bool) (c : lcfg) (bare : bool) (x : lctx) 
       end
   end.
 
+(* RngListIter::next *)
+Definition rng_next (fuel : nat) (dbg : bool) (c : lcfg) (bare : bool) (x : lctx) (s : lstate)
+  : res (option (N * N)) * lstate :=
+  list_next (rng_parse dbg c bare) (fun e => e) (fun rg _ => rg) fuel dbg c x s.
+
 (* LocListIter::next *)
-Fixpoint loc_next (fuel : nat) (dbg : bool) (c : lcfg) (bare : bool) (x : lctx) (s : lstate)
+Definition loc_next (fuel : nat) (dbg : bool) (c : lcfg) (bare : bool) (x : lctx) (s : lstate)
   : res (option ((N * N) * list byte)) * lstate :=
-  match fuel with
-  | O => (OutOfFuel, s)
-  | S f =>
-      let (r, inp') := loc_raw_next dbg c bare (s_inp s) in
-      match r with
-      | Ok None => (Ok None, {| s_inp := inp'; s_base := s_base s |})
-      | Ok (Some (e, d)) =>
-          match convert_raw dbg c x (s_base s) e with
-          | Ok (Some rg, base') => (Ok (Some (rg, d)), {| s_inp := inp'; s_base := base' |})
-          | Ok (None, base') => loc_next f dbg c bare x {| s_inp := inp'; s_base := base' |}
-          | Err er => (Err er, {| s_inp := inp'; s_base := s_base s |})
-          | Panic => (Panic, {| s_inp := inp'; s_base := s_base s |})
-          | OutOfFuel => (OutOfFuel, s)
-          end
-      | Err er => (Err er, {| s_inp := inp'; s_base := s_base s |})
-      | Panic => (Panic, {| s_inp := inp'; s_base := s_base s |})
-      | OutOfFuel => (OutOfFuel, s)
-      end
-  end.
+  list_next (loc_parse dbg c bare) fst (fun rg a => (rg, snd a)) fuel dbg c x s.
 
 Definition next_fuel (s : lstate) : nat := S (length (s_inp s)).
 
